@@ -421,6 +421,21 @@ func (runInfo *runInfoStruct) invokeLetDerefExpr(expr *ast.DerefExpr) {
 		return
 	}
 
-	runInfo.rv.Elem().Set(value)
+	if runInfo.rv.Kind() == reflect.Interface && !runInfo.rv.IsNil() {
+		runInfo.rv = runInfo.rv.Elem()
+	}
+	if runInfo.rv.Kind() != reflect.Ptr || runInfo.rv.IsNil() {
+		runInfo.err = newStringError(expr.Expr, "cannot deference non-pointer")
+		runInfo.rv = nilValue
+		return
+	}
+	target := runInfo.rv.Elem()
+	value, runInfo.err = convertReflectValueToType(value, target.Type())
+	if runInfo.err != nil {
+		runInfo.err = newStringError(expr, "type "+value.Type().String()+" cannot be assigned to type "+target.Type().String())
+		runInfo.rv = nilValue
+		return
+	}
+	target.Set(value)
 	runInfo.rv = value
 }
